@@ -17,10 +17,13 @@ and all addresses / denoms / proposal ids.
   (replayed on the real app, known_findings.json); `not_no_temp_after_resolution` is the
   negation of the full statement and `no_temp_after_resolution_partial` the part that
   holds (histories without a successful cancellation).
+* key layout (keys.go): `temporaryKey_order`, `temporaryAddrPrefix_selects`,
+  `temporaryKey_injective`, `proposalIndexPrefix_selects`
 * funds: `sanctioned_debit_refused`, `sanctioned_balance_nondecreasing`,
   `sanctioned_balance_nondecreasing_history`, `credit_to_sanctioned_succeeds`
 -/
 import PvProofs.Lemmas.SancBal
+import PvProofs.Lemmas.SancKeys
 
 namespace PvProofs.C06
 open PvModel PvModel.Sanc PvModel.Sanc.Spec PvProofs.Sanc
@@ -404,6 +407,62 @@ theorem credit_to_sanctioned_succeeds (s : State) (frm to : Addr) (amt : Coins)
   · intro d hne
     simp only [Ledger.bal_move, hne, if_false, if_true]
     omega
+
+/-! ### 6. key layout (x/sanction/keeper/keys.go)
+
+The abstract store is keyed by `(addr, id)` and "latest" means greatest id. These theorems tie
+that reading to the bytes: under one address prefix the keys of `CreateTemporaryKey` are
+ordered (by `bytes.Compare`) exactly as their proposal ids, so the first element of the
+reverse iterator of `getLatestTempEntry` is the entry with the greatest id; the address prefix
+(length-prefixed) selects the entries of exactly that address, and the index prefix the entries
+of exactly that proposal. -/
+
+section Keys
+open PvModel.SancKeys PvProofs.SancKeys
+
+theorem temporaryKey_order (a : Bytes) (p q : Nat) (hp : p < 2 ^ 64) (hq : q < 2 ^ 64) :
+    lexLt (temporaryKey a p) (temporaryKey a q) = true ↔ p < q := by
+  unfold temporaryKey
+  rw [lexLt_append_left]
+  exact be_lt_iff 8 p q (by rw [pow64]; exact hp) (by rw [pow64]; exact hq)
+
+theorem temporaryAddrPrefix_selects (a a' : Bytes) (p : Nat) :
+    temporaryAddrPrefix a' <+: temporaryKey a p ↔ a' = a := by
+  unfold temporaryKey temporaryAddrPrefix lengthPrefix
+  constructor
+  · intro h
+    simp only [List.cons_append, List.cons_prefix_cons, true_and] at h
+    obtain ⟨hl, hp⟩ := h
+    have h2 : a <+: a ++ be8 p := List.prefix_append _ _
+    have := List.prefix_of_prefix_length_le hp h2 (by omega)
+    exact this.eq_of_length hl
+  · rintro rfl
+    exact List.prefix_append _ _
+
+theorem temporaryKey_injective (a a' : Bytes) (p q : Nat) (hp : p < 2 ^ 64) (hq : q < 2 ^ 64)
+    (h : temporaryKey a p = temporaryKey a' q) : a = a' ∧ p = q := by
+  have h1 : temporaryAddrPrefix a <+: temporaryKey a' q := by
+    rw [← h]; exact List.prefix_append _ _
+  have ha := (temporaryAddrPrefix_selects a' a q).1 h1
+  subst ha
+  refine ⟨rfl, ?_⟩
+  unfold temporaryKey at h
+  exact be_injective 8 p q (by rw [pow64]; exact hp) (by rw [pow64]; exact hq) (List.append_cancel_left h)
+
+theorem proposalIndexPrefix_selects (p p' : Nat) (a : Bytes) (hp : p < 2 ^ 64) (hp' : p' < 2 ^ 64) :
+    proposalTempIndexPrefix p <+: proposalTempIndexKey p' a ↔ p = p' := by
+  unfold proposalTempIndexKey proposalTempIndexPrefix
+  constructor
+  · intro h
+    simp only [List.cons_append, List.cons_prefix_cons, true_and] at h
+    have h2 : be8 p' <+: be8 p' ++ lengthPrefix a := List.prefix_append _ _
+    have hl : (be8 p).length = (be8 p').length := by simp [be8, be_length]
+    have := List.prefix_of_prefix_length_le h h2 (by omega)
+    exact be_injective 8 p p' (by rw [pow64]; exact hp) (by rw [pow64]; exact hp') (this.eq_of_length hl)
+  · rintro rfl
+    exact List.prefix_append _ _
+
+end Keys
 
 /-! ### non-vacuity -/
 
